@@ -13,6 +13,7 @@ import (
 	"log/slog"
 	"net"
 	"os"
+	"reflect"
 	"sync"
 	"time"
 
@@ -270,7 +271,7 @@ func callSubscriptionsListen(ctx context.Context, conn *jsonrpc2.Connection, met
 
 	go func() {
 		<-ctx.Done()
-		_ = cancelCall(ctx, conn, call)
+		_ = cancelCall(ctx, conn, call, params)
 	}()
 }
 
@@ -293,30 +294,11 @@ func call(ctx context.Context, conn *jsonrpc2.Connection, method string, params 
 		// Setting MCPGODEBUG=blockingcancelnotify=1 restores the previous
 		// behavior of waiting synchronously for delivery inside cancelCall.
 		if blockingcancelnotify == "1" {
-			err := cancelCall(ctx, conn, call)
+			err := cancelCall(ctx, conn, call, params)
 			return errors.Join(ctx.Err(), err)
 		}
 		conn.Retire(call, ctx.Err())
-		cancelled := &CancelledParams{
-			Reason:    ctx.Err().Error(),
-			RequestID: call.ID().Raw(),
-		}
-		// Under protocol versions >= 2026-07-28 every message carries the
-		// per-request _meta fields; a notice without them is refused by the
-		// server, and that refusal would break the session. Carry over the
-		// ones of the request being cancelled.
-		if params != nil {
-			if m := params.GetMeta(); m != nil {
-				for _, k := range []string{MetaKeyProtocolVersion, MetaKeyClientInfo, MetaKeyClientCapabilities} {
-					if v, ok := m[k]; ok {
-						if cancelled.Meta == nil {
-							cancelled.Meta = Meta{}
-						}
-						cancelled.Meta[k] = v
-					}
-				}
-			}
-		}
+		cancelled := cancelledParamsFor(ctx, call, params)
 		go func() {
 			notifyCtx, stop := context.WithTimeout(context.WithoutCancel(ctx), notifyCancellationTimeout)
 			defer stop()
@@ -342,15 +324,37 @@ func call(ctx context.Context, conn *jsonrpc2.Connection, method string, params 
 // Therefore, we choose to eagerly retire calls, removing them from the
 // outgoingCalls map, when the caller context is cancelled: if the caller will
 // never receive the response, there's no need to track it.
-func cancelCall(ctx context.Context, conn *jsonrpc2.Connection, call *jsonrpc2.AsyncCall) error {
+func cancelCall(ctx context.Context, conn *jsonrpc2.Connection, call *jsonrpc2.AsyncCall, params Params) error {
 	notifyCtx, cancelNotify := context.WithTimeout(context.WithoutCancel(ctx), notifyCancellationTimeout)
 	defer cancelNotify()
-	err := conn.Notify(notifyCtx, notificationCancelled, &CancelledParams{
-		Reason:    ctx.Err().Error(),
-		RequestID: call.ID().Raw(),
-	})
+	err := conn.Notify(notifyCtx, notificationCancelled, cancelledParamsFor(ctx, call, params))
 	conn.Retire(call, ctx.Err())
 	return err
+}
+
+// cancelledParamsFor builds the notifications/cancelled params for call, whose
+// request params were params. Under protocol versions >= 2026-07-28 every
+// message carries the per-request _meta fields; a notice without them is
+// refused by the server, and that refusal would break the session. The notice
+// therefore carries over the ones of the request being cancelled.
+func cancelledParamsFor(ctx context.Context, call *jsonrpc2.AsyncCall, params Params) *CancelledParams {
+	cancelled := &CancelledParams{
+		Reason:    ctx.Err().Error(),
+		RequestID: call.ID().Raw(),
+	}
+	if params != nil && !reflect.ValueOf(params).IsNil() {
+		if m := params.GetMeta(); m != nil {
+			for _, k := range []string{MetaKeyProtocolVersion, MetaKeyClientInfo, MetaKeyClientCapabilities} {
+				if v, ok := m[k]; ok {
+					if cancelled.Meta == nil {
+						cancelled.Meta = Meta{}
+					}
+					cancelled.Meta[k] = v
+				}
+			}
+		}
+	}
+	return cancelled
 }
 
 // A LoggingTransport is a [Transport] that delegates to another transport,
